@@ -398,6 +398,33 @@ def sk1(F, R):
         hi, _ = guarded(fn, b, lambda g: g_cmp("Gt", False, None, is_size)(g) or g_cmp("Le", True, None, is_size)(g))
         R.require(lo, fn, "lower", "current_offset stored without `new >= 0`", fn.loc(b, i))
         R.require(hi, fn, "upper", "current_offset stored without `new <= size`", fn.loc(b, i))
+        # the sum is formed in a type that holds every u32 + i32 exactly (i64): a 32-bit sum rejects or wraps positions >= 2 GiB
+        v = fn.term_of_rvalue(fn.blocks[b]["stmts"][i]["rv"], b)
+        okw = False
+        if v[0] == "cast" and len(v) > 3 and v[3] in ("i64", "i128") and v[1] == "u32":
+            inner = v[2]
+            if inner[0] == "bin" and inner[1] in ("Add", "AddWithOverflow"):
+                def widened(x, what):
+                    x = strip_refs(x)
+                    if x[0] == "call" and x[1] and x[1].endswith("From::from") and len(x[2]) == 1:
+                        return what(strip_refs(x[2][0]))
+                    if x[0] == "cast" and len(x) > 3 and x[1] in ("i64", "i128"):
+                        return what(strip_refs(x[2]))
+                    return False
+                is_cur = lambda y: y[0] == "place" and [e for e in y[2] if isinstance(e, str)][-1:] == ["current_offset"]
+                is_off = lambda y: y[:2] == ("arg", 2)
+                okw = (widened(inner[2], is_cur) and widened(inner[3], is_off)) or (widened(inner[2], is_off) and widened(inner[3], is_cur))
+        R.require(okw, fn, "wide-sum", "seek_from_current must compute current_offset + offset in 64-bit arithmetic and store its low 32 bits; got %s" % tstr(v)[:160], fn.loc(b, i))
+    # what the other two seeks store
+    from .poly import peq, SUB
+    fn_s = F.fn("FileInfo::seek_from_start")
+    for b, i in stores(fn_s):
+        v = fn_s.term_of_rvalue(fn_s.blocks[b]["stmts"][i]["rv"], b)
+        R.require(strip_refs(v)[:2] == ("arg", 2), fn_s, "stores-offset", "seek_from_start must store the requested offset, stores %s" % tstr(v), fn_s.loc(b, i))
+    fn_e = F.fn("FileInfo::seek_from_end")
+    for b, i in stores(fn_e):
+        v = fn_e.term_of_rvalue(fn_e.blocks[b]["stmts"][i]["rv"], b)
+        R.require(peq(v, SUB(("place", ("arg", 1, "self"), ("*", "entry", "size")), ("arg", 2, "offset"))), fn_e, "stores-size-minus-offset", "seek_from_end must store size - offset, stores %s" % tstr(v), fn_e.loc(b, i))
     fn = F.fn(VM + "::write")
     ul = [(b, t) for b, t in fn.calls() if call_matches(t, ("FileInfo::update_length",))]
     if not ul:
@@ -458,6 +485,19 @@ def cp1(F, R):
                 R.require(okfull, fn, "push(%s):unwrap" % tab, "push().unwrap() into %s without a dominating `!is_full()`" % tab, fn.loc(b2))
             else:
                 R.bad(fn, "push(%s):unknown-use" % tab, "result of push into %s consumed by %s" % (tab, c2), fn.loc(b2))
+    # a TooMany* refusal is decided by the fullness of its own table, and only by that
+    tab_of_variant = {v: k for k, v in VARIANT_OF_TABLE.items()}
+    for fn in F.fns:
+        if not (fn.npath.startswith(VM + "::") or fn.npath.startswith(VMD + "::")) or fn.kind == "Closure":
+            continue
+        for (b, i, var, term) in err_returns(fn):
+            if var not in tab_of_variant:
+                continue
+            want = tab_of_variant[var]
+            full_of = lambda tab: g_call("Vec::is_full", True, lambda a, tab=tab: table_of_term(a[0]) == tab)
+            own = guarded(fn, b, full_of(want))[0]
+            foreign = [t_ for t_ in VARIANT_OF_TABLE if t_ != want and guarded(fn, b, full_of(t_))[0]]
+            R.require(own and not foreign, fn, "refusal:%s" % var, "Err(%s) is %s: the limit that is reported must be the limit that was hit" % (var, "decided by %s.is_full()" % foreign[0] if foreign else "not guarded by %s.is_full()" % want), fn.loc(b, i))
     for name, tab in (("close_dir", "open_dirs"), ("close_file", "open_files"), ("close_volume", "open_volumes")):
         fn = F.fn(VM + "::" + name)
         rem = [(b, t) for b, t in fn.calls() if call_matches(t, ("Vec::swap_remove", "Vec::remove")) and table_of_term(fn.term_of_operand(t["args"][0], b)) == tab]
